@@ -290,6 +290,11 @@ func (c *Client) Resume() error {
 	if c.PostResumeHook != nil {
 		err = c.PostResumeHook()
 	}
+
+	// Start the keepalive and receiver go routines for the new connection
+	keepaliveQuit := make(chan struct{})
+	go keepalive(c.transport, c.config.KeepaliveInterval, keepaliveQuit)
+	go c.recv(keepaliveQuit)
 	return err
 }
 
